@@ -142,10 +142,26 @@ func Match(c Clause, t *triple.Triple, env Env, lo, hi *time.Time) (Env, bool) {
 				ok = false
 				return
 			}
-			if tm.Lo != nil && a.Before(*tm.Lo) {
+			lo, hi := tm.Lo, tm.Hi
+			// bound aliases take the time value an earlier clause bound
+			for _, ba := range []struct {
+				b   string
+				dst **time.Time
+			}{{tm.LoB, &lo}, {tm.HiB, &hi}} {
+				if ba.b == "" {
+					continue
+				}
+				v, has := e[ba.b]
+				if !has || v.T == nil {
+					ok = false
+					return
+				}
+				*ba.dst = v.T
+			}
+			if lo != nil && a.Before(*lo) {
 				ok = false
 			}
-			if tm.Hi != nil && a.After(*tm.Hi) {
+			if hi != nil && a.After(*hi) {
 				ok = false
 			}
 		}
